@@ -835,3 +835,121 @@ func firstNonPhi(b *ssa.BasicBlock) ssa.Instruction {
 	}
 	return nil
 }
+
+// ---------- closed-world call sites ----------
+
+type callerInfo struct {
+	sites     []Site
+	addrTaken bool
+}
+
+func (c *Ctx) buildCallersIdx() {
+	c.callersIdx = map[*ssa.Function]*callerInfo{}
+	get := func(f *ssa.Function) *callerInfo {
+		ci := c.callersIdx[f]
+		if ci == nil {
+			ci = &callerInfo{}
+			c.callersIdx[f] = ci
+		}
+		return ci
+	}
+	var ops []*ssa.Value
+	for _, fn := range c.Fns {
+		for _, b := range fn.Blocks {
+			for _, in := range b.Instrs {
+				var callee *ssa.Function
+				if call, ok := in.(ssa.CallInstruction); ok {
+					if f := call.Common().StaticCallee(); f != nil {
+						callee = f
+						get(f).sites = append(get(f).sites, Site{fn, call, calleeName(call.Common())})
+					}
+				}
+				ops = in.Operands(ops[:0])
+				for i, op := range ops {
+					if op == nil || *op == nil {
+						continue
+					}
+					f, ok := (*op).(*ssa.Function)
+					if !ok {
+						if mc, isMC := (*op).(*ssa.MakeClosure); isMC {
+							_ = mc
+						}
+						continue
+					}
+					// operand 0 of a call instruction is the callee value
+					if callee == f && i == 0 {
+						continue
+					}
+					if mc, isMC := in.(*ssa.MakeClosure); isMC && mc.Fn == ssa.Value(f) {
+						// a closure value: count as address-taken unless only called directly
+						onlyCalled := true
+						for _, ref := range *mc.Referrers() {
+							call, isCall := ref.(ssa.CallInstruction)
+							if !isCall || call.Common().Value != ssa.Value(mc) {
+								if _, isDbg := ref.(*ssa.DebugRef); !isDbg {
+									onlyCalled = false
+								}
+							}
+						}
+						if onlyCalled {
+							continue
+						}
+					}
+					get(f).addrTaken = true
+				}
+			}
+		}
+	}
+}
+
+// staticCallers returns every call site of fn in the module and whether that list is
+// complete: fn is never used as a value, and it cannot be called from outside the module
+// (unexported, a method of an unexported type, or inside an internal package).
+func (c *Ctx) staticCallers(fn *ssa.Function) ([]Site, bool) {
+	if c.callersIdx == nil {
+		c.buildCallersIdx()
+	}
+	ci := c.callersIdx[fn]
+	if ci == nil {
+		return nil, false
+	}
+	if ci.addrTaken || fn.Pkg == nil && fn.Parent() == nil {
+		return ci.sites, false
+	}
+	if fn.Parent() != nil {
+		return ci.sites, true // anonymous function only ever called directly
+	}
+	path := fn.Pkg.Pkg.Path()
+	internal := strings.Contains(path, "/internal/") || strings.HasSuffix(path, "/internal")
+	exported := token.IsExported(fn.Name())
+	if recv := fn.Signature.Recv(); recv != nil {
+		rt := recv.Type()
+		if p, ok := rt.(*types.Pointer); ok {
+			rt = p.Elem()
+		}
+		if n, ok := rt.(*types.Named); ok && !n.Obj().Exported() {
+			exported = false
+		}
+		// a method may also be reached through an interface
+		if exported || c.methodInSomeInterface(fn) {
+			return ci.sites, false
+		}
+	}
+	return ci.sites, internal || !exported
+}
+
+// methodInSomeInterface: conservatively, a method whose name is declared by any interface
+// type of the module or of its imports may be invoked dynamically.
+func (c *Ctx) methodInSomeInterface(fn *ssa.Function) bool {
+	name := fn.Name()
+	for _, f := range c.Fns {
+		for _, b := range f.Blocks {
+			for _, in := range b.Instrs {
+				if call, ok := in.(ssa.CallInstruction); ok && call.Common().IsInvoke() && call.Common().Method.Name() == name {
+					return true
+				}
+			}
+		}
+	}
+	return false
+}
